@@ -17,6 +17,7 @@ from dataclasses import dataclass, field
 from typing import Any, Callable
 
 from .core import Acc, Violation
+from .vloop import WatchdogTimeout
 
 
 class Nondeterminism(RuntimeError):
@@ -28,7 +29,7 @@ def sdk_origin(e: BaseException) -> list[str] | None:
     harness frame, belong to the SDK), return those frames as ``file:line`` strings, else None."""
     import traceback
 
-    frames = traceback.extract_tb(e.__traceback__)
+    frames = [f for f in traceback.extract_tb(e.__traceback__) if f.name != "_on_alarm"]
     last_harness = max((i for i, f in enumerate(frames) if "/mc/" in f.filename and "/frequenz/" not in f.filename), default=-1)
     tail = frames[last_harness + 1:]
     sdk = [f for f in tail if "/frequenz/sdk/" in f.filename]
@@ -39,6 +40,7 @@ def sdk_origin(e: BaseException) -> list[str] | None:
 
 
 CRASH_CLAUSE = "sdk_call_does_not_raise"
+HANG_CLAUSE = "sdk_code_yields_or_terminates"
 
 
 def crash_detail(e: BaseException, where: list[str]) -> dict:
@@ -108,11 +110,18 @@ def _dfs(scenario: Callable[[Chooser], Observation], root: list[int], bound: int
                 f"E1 search stopped early with {len(stack)} subtree root(s) unexplored (bound {bound})"
             )
             break
+        if _abort_requested():
+            acc.caps.append("search abandoned: an execution did not terminate (reported as a violation)")
+            break
         prefix = stack.pop()
         ch = Chooser(prefix)
         obs = run_scenario(scenario, ch)
         n += 1
         record(acc, obs, ch, mkcase, classes)
+        if obs.outcome == "sdk-does-not-terminate":
+            _request_abort()
+            acc.caps.append("search abandoned: an execution did not terminate (reported as a violation)")
+            break
         devs = 0
         tr = ch.trace
         for i, (k, c, dev, _) in enumerate(tr):
@@ -135,6 +144,11 @@ def run_scenario(scenario, ch: Chooser) -> Observation:
         return scenario(ch)
     except Nondeterminism:
         raise
+    except WatchdogTimeout as e:
+        where = sdk_origin(e)
+        if where is None:
+            raise RuntimeError(f"the harness itself exceeded the watchdog: {e}") from e
+        return Observation(outcome="sdk-does-not-terminate", violations=[(HANG_CLAUSE, crash_detail(e, where))])
     except (KeyboardInterrupt, SystemExit, MemoryError):
         raise
     except BaseException as e:  # noqa: BLE001
@@ -180,6 +194,17 @@ def record(acc: Acc, obs: Observation, ch: Chooser, mkcase, classes=None) -> Non
 _G: dict[str, Any] = {}
 
 
+def _abort_requested() -> bool:
+    ev = _G.get("abort")
+    return bool(ev is not None and ev.is_set())
+
+
+def _request_abort() -> None:
+    ev = _G.get("abort")
+    if ev is not None:
+        ev.set()
+
+
 def _worker(args):
     root, bound, deadline_rel, max_exec = args
     acc = Acc()
@@ -208,6 +233,9 @@ def explore(scenario: Callable[[Chooser], Observation], bound: int, mkcase: Call
         obs = run_scenario(scenario, ch)
         expanded += 1
         record(acc, obs, ch, mkcase, classes)
+        if obs.outcome == "sdk-does-not-terminate":
+            acc.caps.append("search abandoned: an execution did not terminate (reported as a violation)")
+            return acc
         devs = 0
         for i, (k, c, dev, _) in enumerate(ch.trace):
             if i < len(prefix):
@@ -221,8 +249,8 @@ def explore(scenario: Callable[[Chooser], Observation], bound: int, mkcase: Call
     roots = [p for p, _ in frontier]
     if not roots:
         return acc
-    _G.update(scenario=scenario, mkcase=mkcase, classes=classes, t0=t0)
     ctx = mp.get_context("fork")
+    _G.update(scenario=scenario, mkcase=mkcase, classes=classes, t0=t0, abort=ctx.Event())
     per = None if max_exec is None else max(1, max_exec // max(1, len(roots)))
     with ctx.Pool(min(workers, len(roots))) as pool:
         for a in pool.imap_unordered(_worker, [(r, bound, time_cap_s, per) for r in roots], chunksize=1):
@@ -235,7 +263,7 @@ def replay_choices(scenario: Callable[[Chooser], Observation], choices: list[int
     """Re-execute exactly one recorded schedule (no search)."""
     ch = Chooser(choices, labels)
     obs = run_scenario(scenario, ch)
-    if obs.outcome == "sdk-exception":
+    if obs.outcome in ("sdk-exception", "sdk-does-not-terminate"):
         return obs
     if len(ch.trace) < len(choices):
         raise Nondeterminism("execution ended before the recorded schedule was consumed")
@@ -276,9 +304,11 @@ def run_shard(fn, shard) -> Acc:
         return fn(shard)
     except Nondeterminism:
         raise
-    except (KeyboardInterrupt, SystemExit, MemoryError):
+    except (SystemExit, MemoryError):
         raise
     except BaseException as e:  # noqa: BLE001
+        if isinstance(e, KeyboardInterrupt) and not isinstance(e, WatchdogTimeout):
+            raise
         where = sdk_origin(e)
         if where is None:
             if isinstance(e, Exception):
@@ -288,12 +318,15 @@ def run_shard(fn, shard) -> Acc:
         import base64
         import pickle
 
+        clause = HANG_CLAUSE if isinstance(e, WatchdogTimeout) else CRASH_CLAUSE
         acc = Acc()
         acc.evaluations += 1
-        acc.clauses[CRASH_CLAUSE] += 1
+        acc.clauses[clause] += 1
         case = {"crash_in_shard": {"module": fn.__module__, "fn": fn.__qualname__,
                                    "shard_pickle": base64.b64encode(pickle.dumps(shard)).decode(), "shard": repr(shard)[:300]}}
-        acc.violation(Violation(CRASH_CLAUSE, case, crash_detail(e, where)))
+        acc.violation(Violation(clause, case, crash_detail(e, where)))
+        if clause == HANG_CLAUSE:
+            _request_abort()
         return acc
 
 
@@ -310,6 +343,10 @@ def replay_crash(case: dict):
 
 def _shard_worker(args):
     fn_name, shard = args
+    if _abort_requested():
+        a = Acc()
+        a.caps.append("shard skipped: an execution did not terminate (reported as a violation)")
+        return a
     return run_shard(_G["shard_fns"][fn_name], shard)
 
 
@@ -322,6 +359,7 @@ def pmap_acc(fn: Callable[[Any], Acc], shards: list, workers: int) -> Acc:
         return acc
     _G.setdefault("shard_fns", {})[fn.__qualname__] = fn
     ctx = mp.get_context("fork")
+    _G["abort"] = ctx.Event()
     with ctx.Pool(min(workers, len(shards))) as pool:
         for a in pool.imap_unordered(_shard_worker, [(fn.__qualname__, s) for s in shards], chunksize=1):
             acc.merge(a)
